@@ -121,8 +121,10 @@ class unknown_format:
             s_err = True
         else:
             s_err = False
+        known_fmt = fmt == 'json' or fmt == 'yaml' or fmt == 'yml'
+        text = dl.serialize({'a': 1}, fmt if known_fmt else 'json')
         try:
-            dl.deserialize(dl.serialize({'a': 1}, 'json'), fmt)
+            dl.deserialize(text, fmt)
         except ValueError:
             d_err = True
         except Exception:
